@@ -144,6 +144,15 @@ Definition drop_conn (c : conn) (s : state) : state := set_conns (without c (con
 Definition close_peer (c : conn) (s : state) : state :=
   if live c s then on_closed c (drop_conn c (emit [OClose c] s)) else s.
 
+(* _notify_server_of_parent followed by _notify_children_of_branch_values (tail of _set_parent, and of
+   the handlers of an update from the parent): without a session the first call raises; while the
+   server write side is held the handler stays suspended after the server send *)
+Definition advertise (s : state) : state :=
+  if session s then
+    let s1 := tell_server s in
+    if held s1 then push KSet s1 else notify_children s1
+  else s.
+
 Definition keepers (s : state) : list conn := match parent s with Some p => p :: children s | None => children s end.
 
 (* _set_parent *)
@@ -154,18 +163,19 @@ Definition do_set_parent (c : conn) (s : state) : state :=
   let s2 := emit (map OClose dropped)
               (set_peers (filter (fun p => memn (pc p) keep || negb (memn (pc p) (conns s1))) (peers s1))
                  (set_conns (filter (fun x => memn x keep) (conns s1)) s1)) in
-  if session s2 then
-    let s3 := tell_server s2 in
-    if held s3 then push KSet s3 else notify_children s3
-  else s2.
+  advertise s2.
 
 Definition complete (p : peer) : bool := match plevel p, proot p with Some _, Some _ => true | _, _ => false end.
 
-(* after a branch level / root was stored for the peer on connection c *)
+(* after a branch level / root was stored for the peer on connection c.
+   [take_as_parent] (generated from _check_if_new_parent) decides between _set_parent and disconnect;
+   [parent_update_tells_server] (generated) whether an update from the parent goes to the server too *)
 Definition after_announce (c : conn) (s : state) : state :=
-  if is_parent c s then notify_children s
+  if is_parent c s then (if parent_update_tells_server then advertise s else notify_children s)
   else match find_peer c s with
-       | Some p => if complete p then (if is_none (parent s) then do_set_parent c s else close_peer c s) else s
+       | Some p => if complete p then
+                     (if take_as_parent (negb (is_none (parent s))) (memn c (children s)) then do_set_parent c s else close_peer c s)
+                   else s
        | None => s
        end.
 
@@ -281,22 +291,13 @@ Definition lookup_told (c : conn) (s : state) : option (Z * name) :=
 (* a connection is gained as child by the step *)
 Definition gained_child (s s' : state) (c : conn) : Prop := In c (children s') /\ ~ In c (children s).
 
-(* event side conditions used by the partial theorems *)
-Definition child_announces (s : state) (e : event) : bool :=      (* shape of finding F10 *)
-  match e with
-  | BranchLevel c _ | BranchRoot c _ => memn c (children s)
-  | _ => false
-  end.
-Definition parent_updates (s : state) (e : event) : bool :=       (* shape of finding F11 *)
-  match e with
-  | BranchLevel c _ | BranchRoot c _ => is_parent c s
-  | _ => false
-  end.
-Definition needs_session (e : event) : bool :=
+(* events that change the tree or resume suspended handlers happen while a session exists
+   (the excluded case is finding F27) *)
+Definition session_present (s : state) (e : event) : bool :=
   match e with
   | SessionInit | SessionDestroyed | ServerClosed | PotentialParents _ | ParentMinSpeed _ | ParentSpeedRatio _
-  | OwnStats _ | Hold | Release => false
-  | _ => true
+  | OwnStats _ | Hold => true
+  | _ => session s
   end.
 
 (* [along P s evs]: P holds of (state before, event) at every step of the run *)
